@@ -300,6 +300,14 @@ fn ep_family_driver(ctx: &RunCtx, stats: &mut Stats, rep: &mut Reporter) {
     });
 }
 
+fn pair_check(case: &Value, stats: &mut Stats) -> CheckResult {
+    run_pair(case, stats, check_case)
+}
+
+fn pair_driver(ctx: &RunCtx, stats: &mut Stats, rep: &mut Reporter) {
+    half_key_driver("C01", pair_check, ctx, stats, rep)
+}
+
 pub fn property() -> Property {
     Property {
         id: "C01",
@@ -355,6 +363,15 @@ pub fn property() -> Property {
                 required: &["ep_capture_illegal"],
                 regressions: &[],
                 exhaustive: true,
+            },
+            SubCheck {
+                name: "half_key_pairs",
+                driver: Driver::Custom { run: pair_driver },
+                check: pair_check,
+                configs: Configs::ReleaseOnly,
+                required: &["equal_low_half_of_the_key", "equal_high_half_of_the_key"],
+                regressions: &[],
+                exhaustive: false,
             },
         ],
     }
